@@ -135,6 +135,17 @@ func (ts *TermStore) mk(t *Term) *Term {
 	return t
 }
 
+// injFamily reports whether the UF name belongs to a family of injective
+// functions with pairwise disjoint ranges, and which.
+func injFamily(name string) (string, bool) {
+	for _, p := range []string{"H_", "S256_", "SIG_"} {
+		if strings.HasPrefix(name, p) {
+			return p, true
+		}
+	}
+	return "", false
+}
+
 var bigOne = big.NewInt(1)
 
 func mask(w int) *big.Int {
@@ -333,6 +344,23 @@ func (ts *TermStore) Eq(a, b *Term) *Term {
 		}
 		if b.IsFalse() {
 			return ts.Not(a)
+		}
+	}
+	// injective uninterpreted functions (ideal hashes, ideal signatures):
+	// f(x) = f(y) <=> x = y, and different members of one family (input
+	// lengths) have disjoint ranges. Sound under the axioms emitted for them.
+	if a.Op == OpUF && b.Op == OpUF {
+		if fa, ok := injFamily(a.Name); ok {
+			if fb, ok2 := injFamily(b.Name); ok2 && fa == fb {
+				if a.Name != b.Name {
+					return ts.False
+				}
+				var conj []*Term
+				for i := range a.Args {
+					conj = append(conj, ts.Eq(a.Args[i], b.Args[i]))
+				}
+				return ts.And(conj...)
+			}
 		}
 	}
 	// concat vs concat / const: split along the concat's segments
